@@ -48,6 +48,10 @@ PROPS = {
     "C01": mk(["u1"], T_SIGNAL, [R1, R2, R3, A1, A5], "conservation + ownership contracts on every critical section; effect log of hand-offs"),
     "C02": mk(["u1"], T_SIGNAL, [R1, R2, R3, A1, A5], "every send-type section appends at the tail of the logical order, every receive-type section takes its head"),
     "C03": mk(["u1"], T_SIGNAL, [R1, R2, R3, A1, A5], "every entry point ensures one atomic reference step per critical section; lock invariant at every guard death"),
+    "C04": mk(["u1"], T_SIGNAL + ["Kani 0.68 / CBMC 6.11 as shipped; one ignored CBMC check (zero-byte memset of core::mem::zeroed::<ZST>) listed under kani_tool_artefacts_ignored"],
+              [R1, R2, R3, A1, A5, "universal quantifier over the message type T is covered by size/alignment classes (ZST, over-aligned ZST, 1,2,3,4,8 bytes, padded, 16, 24 bytes, padded large), each over its full value domain",
+               "memory ordering (release store after the payload write / acquire before the read) is NOT decided: Verus assumes SC, Kani has no threads"],
+              "Kani: KanalPtr and Signal transport every value bit-for-bit per size class (complete per instance); Verus: a receiver reads a slot only with evidence of delivery and with the size dispatch consistent"),
     "C05": mk(["u1"], T_SIGNAL, [R1, R2, R3, A1, A5], "MaybeUninit typestate + scope-exit obligations on every lent slot + Option post-conditions"),
     "C08": mk(["u1"], T_SIGNAL, [R1, R2, R3, A1, A2, A5], "len <= capacity is part of the lock invariant; admission post-conditions"),
     "C09": mk(["u1"], T_SIGNAL, [R1, R2, R3, R4, A1, A5], "all contracts are proved for all four handle types and never mention the flavour of a waiter; conversions are transmutes (shape check)"),
